@@ -82,7 +82,7 @@ BUDGET = {'quick': 15, 'thorough': 180}
 # every floor is below what the clock-independent part of the workload (exhaustive() + fixed())
 # delivers on its own, so a loaded machine cannot make a run inconclusive
 FLOORS = {
-    'quick': {'directed:array_shown_ranges': 100, 'directed:ranges_beside_a_one_cell_sheet': 30, 'exh:grids': 15403, 'exh:sumproduct': 12681, 'exh:wb': 141,
+    'quick': {'directed:array_shown_ranges': 100, 'directed:ranges_beside_a_one_cell_sheet': 30, 'directed:cancelling': 16, 'exh:grids': 15403, 'exh:sumproduct': 12681, 'exh:wb': 141,
               'fixed:agg': 3300, 'fixed:subtotal': 300, 'fixed:sumproduct': 1125,
               'pycel_calls': 140000, 'calls:wb': 14000, 'calls:SUBTOTAL': 3000,
               'law:permutation:checked': 12000, 'law:permutation-several-codes:checked': 1500,
@@ -1175,9 +1175,49 @@ def ranges_beside_a_one_cell_sheet(ctx):
                             shown, case)
 
 
+CANCELLING = [
+    [1e16, 1.0, -1e16], [1e16, 3.0, -1e16, 'n/a', None, True], [2.0 ** 60, 1.5, -2.0 ** 60, 0.25],
+    [1e15, 0.1, 0.2, -1e15, 7.0], [-4e17, 3.0, 4e17], [1e16, 1.0, 1.0, -1e16, 1.0, 1.0],
+    [9007199254740993, 1.5, -9007199254740993], [1e16, -1e16, 1.0],
+]
+
+
+def cancelling_cases(ctx):
+    """AVERAGE = SUM / COUNT on cells whose sum cancels: the identity is one between pycel's own functions, so on the
+    same cells AVERAGE is SUM / COUNT up to the rounding of that one division whatever way pycel adds (and SUBTOTAL 1
+    is SUBTOTAL 9 / SUBTOTAL 2) - the tolerance is relative to the result here, not to the magnitude of the terms"""
+    from vp.lib import call, eval_formula
+    for cells_ in CANCELLING:
+        for layout in ('row', 'column'):
+            grid = (tuple(cells_),) if layout == 'row' else tuple((v,) for v in cells_)
+            case = {'kind': 'cancelling', 'cells': cells_, 'layout': layout}
+            ctx.count('directed:cancelling')
+            ctx.case(('cancelling', repr(cells_), layout))
+            outs = {f: call(f, grid) for f in ('sum_', 'average', 'count')}
+            wcells = {(wb.coord(1 + i, 1) if layout == 'row' else wb.coord(1, 1 + i)): v
+                      for i, v in enumerate(cells_) if v is not None}
+            ref_ = f'A1:{wb.coord(len(cells_), 1)}' if layout == 'row' else f'A1:A{len(cells_)}'
+            sheet = {f: eval_formula(f'={f}({ref_})', wcells) for f in ('SUM', 'AVERAGE', 'COUNT')}
+            sub = {n: eval_formula(f'=SUBTOTAL({n},{ref_})', wcells) for n in (9, 1, 2)}
+            for name, (s_, a_, n_) in (('library call', (outs['sum_'], outs['average'], outs['count'])),
+                                       ('worksheet', (sheet['SUM'], sheet['AVERAGE'], sheet['COUNT'])),
+                                       ('SUBTOTAL', (sub[9], sub[1], sub[2]))):
+                ok = all(o[0] == 'v' and isinstance(o[1], (int, float)) and not isinstance(o[1], bool)
+                         for o in (s_, a_, n_)) and n_[1] != 0
+                if ok:
+                    want = s_[1] / n_[1]
+                    ok = abs(a_[1] - want) <= 1e-12 * abs(want)
+                if not ok:
+                    ctx.violation('LAW/AVERAGE-differs-from-SUM-over-COUNT/cancelling-terms',
+                                  f'{name}: over {cells_!r} ({layout}) AVERAGE = {a_[1]!r} but SUM = {s_[1]!r} and COUNT = '
+                                  f'{n_[1]!r}', case)
+
+
 def run(ctx):
     if ctx.shard == 0:
         table_references(ctx)
+    if ctx.shard == 1 % ctx.nshards:
+        cancelling_cases(ctx)
     if ctx.shard == 2 % ctx.nshards:
         ranges_beside_a_one_cell_sheet(ctx)
     array_shown_ranges(ctx, 12 if ctx.quick else 150)
@@ -1192,6 +1232,9 @@ def replay(ctx, case):
         return
     if case.get('kind') == 'one-cell-sheet':
         ranges_beside_a_one_cell_sheet(ctx)
+        return
+    if case.get('kind') == 'cancelling':
+        cancelling_cases(ctx)
         return
     if case.get('kind') == 'array-shown':
         array_shown_ranges(ctx, 12 if ctx.quick else 150)
